@@ -293,6 +293,30 @@ def _texpr(n, env):
             need(ts == 'string' and ls is not None, 'kernel: %s with a non-literal argument' % f.attr)
             fn = 'starts_with' if f.attr == 'startswith' else 'ends_with'
             return ('(' + ' || '.join('%s %s %s' % (fn, cstr(x), s) for x in ls) + ')', 'bool')
+        if isinstance(f, ast.Attribute) and f.attr == 'format' and isinstance(f.value, ast.Constant) and isinstance(f.value.value, str) and not n.keywords:
+            # 'a{}b{}c'.format(x, y) with string arguments: concatenation
+            pieces = f.value.value.split('{}')
+            need(len(pieces) == len(n.args) + 1 and '{' not in ''.join(pieces) and '}' not in ''.join(pieces), 'kernel: format string %r' % f.value.value)
+            args = [_texpr(a, env) for a in n.args]
+            need(all(t == 'string' for _, t in args), 'kernel: format() of non-strings')
+            parts = []
+            for i, pc in enumerate(pieces):
+                if pc:
+                    parts.append(cstr(pc))
+                if i < len(args):
+                    parts.append(args[i][0])
+            e = parts[-1]
+            for x in reversed(parts[:-1]):
+                e = '(String.append %s %s)' % (x, e)
+            return (e, 'string')
+        if isinstance(f, ast.Attribute) and f.attr == 'join' and isinstance(f.value, ast.Constant) and isinstance(f.value.value, str) and len(n.args) == 1 and not n.keywords:
+            x, tx = _texpr(n.args[0], env)
+            need(tx == 'list string', 'kernel: join over %s' % tx)
+            return ('(join %s %s)' % (cstr(f.value.value), x), 'string')
+        if isinstance(f, ast.Attribute) and f.attr == 'rstrip' and len(n.args) == 1 and isinstance(n.args[0], ast.Constant) and isinstance(n.args[0].value, str) and not n.keywords:
+            x, tx = _texpr(f.value, env)
+            need(tx == 'string', 'kernel: rstrip of %s' % tx)
+            return ('(rstrip_chars %s %s)' % (cstr(n.args[0].value), x), 'string')
         if isinstance(f, ast.Attribute) and f.attr == 'index' and len(n.args) == 1 and not n.keywords:
             (l, tl), (x, tx) = _texpr(f.value, env), _texpr(n.args[0], env)
             need((tl, tx) in (('list Z', 'Z'), ('list string', 'string')), 'kernel: index on %s' % tl)
@@ -1232,6 +1256,22 @@ def main(out_path):
         w(kernel('src_between_versions', [('vfrom', 'string'), ('vtill', 'string'), ('cmp_from', 'Z'), ('cmp_till', 'Z')], bv.body,
                  inputs={'self.compare_version(vfrom)': ('cmp_from', 'Z'), 'self.compare_version(vtill)': ('cmp_till', 'Z')}))
     soft('Software.between_versions', ['C14'], ex_between)
+
+    def ex_since_text():
+        t_alg = ast.parse(src('algorithm.py'))
+        gs = func_node(t_alg, 'Algorithm.get_since_text')
+        body = [st for st in gs.body if not (isinstance(st, ast.Expr) and isinstance(st.value, ast.Constant))]
+        need(len(body) == 5 and ast.unparse(body[0]) == 'tv = []' and isinstance(body[1], ast.If) and ast.unparse(body[1].test) == 'len(versions) == 0 or versions[0] is None'
+             and ast.unparse(body[1].body[0]) == 'return None' and isinstance(body[2], ast.For) and ast.unparse(body[2].iter) == "versions[0].split(',')"
+             and isinstance(body[3], ast.If) and ast.unparse(body[3].test) == 'len(tv) == 0' and ast.unparse(body[3].body[0]) == 'return None' and isinstance(body[4], ast.Return), 'get_since_text: shape')
+        loop = body[2].body
+        need(ast.unparse(loop[0]) == 'ssh_prod, ssh_ver, is_cli = cls.get_ssh_version(v)', 'get_since_text: the loop starts by reading the token')
+        inputs = {'Product.' + k: ('product_' + k, 'string') for k in ('OpenSSH', 'DropbearSSH', 'LibSSH')}
+        inputs['tv'] = ('(@nil string)', 'list string')
+        # what one token contributes (the loop body after the unpacking; `continue` guards the rest)
+        w(kernel('src_since_token', [('ssh_prod', 'string'), ('ssh_ver', 'string'), ('is_cli', 'bool')], _guard_continue(loop[1:]), inputs=inputs, result='tv'))
+        w(kernel('src_since_join', [('tv', 'list string')], [body[4]]))
+    soft('Algorithm.get_since_text', ['C03'], ex_since_text)
 
     def ex_ssh_version():
         t_alg = ast.parse(src('algorithm.py'))
